@@ -280,7 +280,7 @@ static void one_case(uint64_t idx)
     vh_rng_seed(&r, vh_seed, 0x19, idx);
     snprintf(d, sizeof(d), "{\"driver\":\"drv_ard\",\"prop\":\"C19\",\"seed\":%llu,\"case\":%llu,\"variant\":\"%s\"}", (unsigned long long)vh_seed, (unsigned long long)idx, vh_variant);
     vh_case_begin(idx, "C19", d);
-    if (idx % 4 == 3) case_ctr(idx / 4, &r); else case_block(idx - idx / 4, &r);
+    if (idx % 5 == 4) case_ctr(idx / 5, &r); else case_block(idx - idx / 5, &r);      /* 1 case in 5 is a CTR<T> sequence (5 is coprime to the shard count, so every shard gets its share) */
 }
 
 int main(int argc, char **argv)
